@@ -27,7 +27,7 @@ def run(ck):
     for m in MUTS:
         ck.mc_must_fail("MCJsonValue", "C09_asfound_%s.cfg" % m, workers=4, timeout=600)
     exe = vlib.build("san", vlib.harness_sources(), "vh")
-    n = 6000 if thorough else 1000
+    n = 40000 if thorough else 1000
     tp = os.path.join(ck.dir, "v.ndjson")
     deaths = vlib.run_executions(exe, lambda st: ["c09", "drive", st, n], n, tp, timeout=1200)
     vlib.conformance(ck, "V:pairs-twins-mutations-copies", "TraceJsonValue", "trace.cfg", tp, deaths, diag_of, min_events=n, timeout=1800,
